@@ -37,7 +37,7 @@ TECHNIQUE = "Hypothesis-generated expression trees rendered to text vs. independ
 LEVEL_TEXT = ("generated-input search: random expression trees over the complete operator set with varied rendering, "
               "compared on a fixed pool of flows of every type against an independent evaluator; not exhaustive")
 LEVEL_NOTE = "trusts Python re, the spec->flow builder in lib/ref_filter.py and str(DNSMessage)"
-QUICK_N, THOROUGH_N = 5_000, 500_000
+QUICK_N, THOROUGH_N = 1_800, 500_000
 BUDGET_S = (300, 7200)
 
 # ------------------------------------------------------------------ regex grammar
